@@ -24,6 +24,10 @@ pub struct Off {
 pub enum ROp {
     Read(u8, u16),
     Seek(Whence, Off),
+    /// Read::read_to_end from the current position
+    ReadToEnd,
+    /// Read::read_exact with a buffer of the given size class
+    ReadExact(u8, u16),
 }
 
 #[derive(Clone, Debug, PartialEq)]
@@ -43,8 +47,10 @@ pub fn whence_strategy() -> impl Strategy<Value = Whence> {
 
 pub fn rop_strategy() -> impl Strategy<Value = ROp> {
     prop_oneof![
-        3 => (any::<u8>(), any::<u16>()).prop_map(|(k, n)| ROp::Read(k, n)),
-        2 => (whence_strategy(), off_strategy()).prop_map(|(w, o)| ROp::Seek(w, o)),
+        6 => (any::<u8>(), any::<u16>()).prop_map(|(k, n)| ROp::Read(k, n)),
+        5 => (whence_strategy(), off_strategy()).prop_map(|(w, o)| ROp::Seek(w, o)),
+        1 => Just(ROp::ReadToEnd),
+        1 => (any::<u8>(), any::<u16>()).prop_map(|(k, n)| ROp::ReadExact(k, n)),
     ]
 }
 
@@ -165,6 +171,50 @@ pub fn run_read_script(
                     }
                     (Ok(a), Err(_)) => return Err(format!("seek({:?}) before the start (or overflowing) succeeded with position {}", sf, a)),
                     (Err(e), Ok(b)) => return Err(format!("seek({:?}) failed ({}) but is valid (cursor position {})", sf, e, b)),
+                }
+            }
+            ROp::ReadToEnd => {
+                let pos = model.position();
+                let mut got = vec![];
+                let r = handle.read_to_end(&mut got);
+                trace.push(format!("read_to_end at {} -> {:?}", pos, r.as_ref().map_err(|e| e.kind())));
+                let mut expect = vec![];
+                model.read_to_end(&mut expect).unwrap();
+                match r {
+                    Err(e) => return Err(format!("read_to_end at position {} failed: {}", pos, e)),
+                    Ok(n) => {
+                        if n != got.len() || got != expect {
+                            return Err(format!("read_to_end at position {} of {} returned {} bytes, a cursor returns the remaining {}", pos, len, got.len(), expect.len()));
+                        }
+                    }
+                }
+                if outside {
+                    nontrivial = true;
+                }
+            }
+            ROp::ReadExact(k, n) => {
+                let want = read_size(*k, *n, content.len()).min(70_000);
+                let pos = model.position();
+                let mut a = vec![0u8; want];
+                let mut b = vec![0u8; want];
+                let rm = model.read_exact(&mut b);
+                let rh = handle.read_exact(&mut a);
+                trace.push(format!("read_exact({}) at {} -> {:?} (model {:?})", want, pos, rh.as_ref().map_err(|e| e.kind()), rm.as_ref().map_err(|e| e.kind())));
+                match (rh, rm) {
+                    (Ok(()), Ok(())) => {
+                        if a != b {
+                            return Err(format!("read_exact({}) at position {} returned wrong bytes", want, pos));
+                        }
+                    }
+                    (Err(_), Err(_)) => {
+                        // position after a failed read_exact is unspecified: re-synchronise both
+                        let _ = model.seek(SeekFrom::Start(pos));
+                        if handle.seek(SeekFrom::Start(pos)).is_err() {
+                            return Err(format!("seek(Start({})) failed after a failed read_exact", pos));
+                        }
+                    }
+                    (Ok(()), Err(_)) => return Err(format!("read_exact({}) at position {} of {} succeeded although fewer bytes remain", want, pos, len)),
+                    (Err(e), Ok(())) => return Err(format!("read_exact({}) at position {} of {} failed ({}) although enough bytes remain", want, pos, len, e)),
                 }
             }
             ROp::Read(k, n) => {
@@ -300,6 +350,8 @@ pub fn rops_to_json(s: &[ROp]) -> Value {
             .map(|o| match o {
                 ROp::Read(k, n) => json!(["read", k, n]),
                 ROp::Seek(w, o) => json!(["seek", whence_json(w), o.anchor, o.delta]),
+                ROp::ReadToEnd => json!(["read_to_end"]),
+                ROp::ReadExact(k, n) => json!(["read_exact", k, n]),
             })
             .collect(),
     )
@@ -312,6 +364,8 @@ pub fn rops_from_json(v: &Value) -> Vec<ROp> {
                     let x = x.as_array()?;
                     match x.first()?.as_str()? {
                         "read" => Some(ROp::Read(x.get(1)?.as_u64()? as u8, x.get(2)?.as_u64()? as u16)),
+                        "read_to_end" => Some(ROp::ReadToEnd),
+                        "read_exact" => Some(ROp::ReadExact(x.get(1)?.as_u64()? as u8, x.get(2)?.as_u64()? as u16)),
                         _ => Some(ROp::Seek(
                             whence_from(x.get(1)?.as_str()?),
                             Off { anchor: x.get(2)?.as_u64()? as u8, delta: x.get(3)?.as_i64()? as i8 },
